@@ -47,7 +47,7 @@ func genCase(t *rapid.T) Case {
 	c := Case{Ops: []Op{{Kind: "add"}, {Kind: "add"}}}
 	for i := 0; i < n; i++ {
 		c.Ops = append(c.Ops, Op{
-			Kind:   rapid.SampledFrom([]string{"add", "add", "remove", "remove", "terminate", "call", "call", "call", "rawcall", "rawcall", "subscribe", "removebad", "race", "race", "busyremove"}).Draw(t, "kind"),
+			Kind:   rapid.SampledFrom([]string{"add", "add", "remove", "remove", "terminate", "call", "call", "call", "rawcall", "rawcall", "subscribe", "removebad", "race", "race", "busyremove", "subrace"}).Draw(t, "kind"),
 			Target: rapid.IntRange(0, 12).Draw(t, "target"),
 		})
 	}
@@ -292,6 +292,75 @@ func checkCase(c Case) error {
 				return vt.Violationf("C16:subscribe-error", "step %d: subscribe to live object %d: %v", i, o.id, err)
 			}
 			o.subs = append(o.subs, ch)
+		case "subrace":
+			if o == nil || !o.live {
+				continue
+			}
+			// Twenty registrations of another connection come first in the
+			// object's table, two subscribers (whose channels are watched) last;
+			// while the object is removed, three more connections register as fast
+			// as they can. Whatever becomes of the late ones, the subscribers that
+			// were there before are told.
+			filler, err := netkit.Dial(env.Addr)
+			if err != nil || !filler.Authenticate("u", "t", bound) {
+				return vt.Violationf("C16:setup", "raw client: %v", err)
+			}
+			defer filler.Close()
+			regPayload := func(id uint64) []byte {
+				b := binary.LittleEndian.AppendUint32(nil, o.id)
+				b = binary.LittleEndian.AppendUint32(b, 102)
+				return binary.LittleEndian.AppendUint64(b, id)
+			}
+			for k := 0; k < 20; k++ {
+				if f, ok := filler.CallWait(svc.ServiceID(), o.id, 0, regPayload(uint64(870000+100*i+k)), bound); !ok || f.Type != netkit.Reply {
+					return vt.Violationf("C16:subscribe-error", "step %d: registerEvent on live object %d: %v", i, o.id, f)
+				}
+			}
+			for k := 0; k < 2; k++ {
+				_, ch, err := o.proxy.SubscribePong()
+				if err != nil {
+					return vt.Violationf("C16:subscribe-error", "step %d: subscribe to live object %d: %v", i, o.id, err)
+				}
+				o.subs = append(o.subs, ch)
+			}
+			var late []*netkit.RawClient
+			for k := 0; k < 4; k++ {
+				x, err := netkit.Dial(env.Addr)
+				if err != nil || !x.Authenticate("u", "t", bound) {
+					return vt.Violationf("C16:setup", "raw client: %v", err)
+				}
+				defer x.Close()
+				late = append(late, x)
+			}
+			var rw sync.WaitGroup
+			for k, x := range late {
+				rw.Add(1)
+				go func(k int, x *netkit.RawClient) {
+					defer rw.Done()
+					for n := 0; n < 8; n++ {
+						x.Send(netkit.Frame{Type: netkit.Call, ID: x.NextID(), Service: svc.ServiceID(), Object: o.id, Action: 0, Payload: regPayload(uint64(880000 + 1000*i + 10*k + n))})
+					}
+				}(k, x)
+			}
+			removed := make(chan error, 1)
+			go func() {
+				time.Sleep(time.Duration(20*(op.Target%6)) * time.Microsecond)
+				removed <- svc.Remove(o.id)
+			}()
+			rw.Wait()
+			select {
+			case err := <-removed:
+				if err != nil {
+					return vt.Violationf("C16:remove-error", "step %d: Remove(%d) of a live object failed: %v", i, o.id, err)
+				}
+			case <-time.After(bound):
+				return vt.Violationf("C16:remove-hangs", "step %d: Remove(%d) while registrations arrived did not return within %v\n%s", i, o.id, bound, vt.BlockedInLibrary())
+			}
+			o.live = false
+			if err := afterRemoval(o, "Remove while registrations were queued"); err != nil {
+				return err
+			}
+			vt.Label("subrace-step")
 		case "busyremove":
 			if o == nil || !o.live {
 				continue
